@@ -2240,8 +2240,9 @@ class Component_Decl(Base):  # R442
             char_length = Char_Length(char_length)
         if newline.startswith("="):
             init = Component_Initialization(newline)
-        else:
-            assert newline == "", repr(newline)
+        elif newline:
+            # Unexpected text after the component declaration.
+            return
         return name, array_spec, char_length, init
 
     def tostr(self):
